@@ -10,6 +10,7 @@ dynamic: REAL round trips (dict, JSON text, pickle / JSON files, n = 1..3) for c
 oracle : the property itself on the real classes (same family, to_dict equality, bitwise pdf/cdf/ppf/partial
          derivative, identical sample stream under the same random state, unfitted, dispatch, vines).
 """
+COQCHK = ['C14_biv', 'C14_vine', 'C14_rest']   # cones without Coquelicot / Interval: coqchk -o re-checks them in about a minute each (thorough tier)
 import json
 import os
 import shutil
